@@ -36,7 +36,7 @@ ALLGATES = ["envman.create.snapshot", "envman.create.registered", "task.lock", "
             "td.released2", "td.done", "task.kill.send", "env.lock.acquired"]
 C04_INVS = {"OneOwner", "OwnerMatchesListing", "DetExclusive", "KillUnowned", "LockUnowned", "ReleaseOwn", "CommandOwn",
             "ConflictFails", "HolderUnchanged", "NoCrash"}
-C06_INVS = {"PostListed", "PostOwned", "PostOwnedApi", "PostKilled", "PostOrphan", "PostDetectors", "DestroyHooksLast", "Returns",
+C06_INVS = {"OwnerListed", "PostListed", "PostOwned", "PostOwnedApi", "PostKilled", "PostOrphan", "PostDetectors", "DestroyHooksLast", "Returns",
             "PendingCalls"}
 
 
@@ -165,7 +165,8 @@ def generate(ctx, c, n, depth=400, pairs=False, gates=None, seed=None, max_pairs
     seen, out = set(), []
     for rec in recs:
         h = norm_hist(rec[1])
-        if not h:
+        # a history without any create has nothing to run on
+        if not any(x["do"] == "create" or (x["do"] == "par" and "create" in (x["a"]["do"], x["b"]["do"])) for x in h):
             continue
         key = json.dumps(h, sort_keys=True)
         if key not in seen:
@@ -313,7 +314,7 @@ class Builder:
                     gs["match"] = match
                 self.steps += [gs, self.call_step(a, "A"), {"do": "waitgate", "point": point, "timeout_ms": 4000},
                                {"do": "disarm", "point": point}, self.call_step(b, "B"), {"do": "settle", "ms": 150},
-                               {"do": "release", "point": point}, {"do": "await", "caller": "A"}, {"do": "await", "caller": "B"},
+                               {"do": "snapshot"}, {"do": "release", "point": point}, {"do": "await", "caller": "A"}, {"do": "await", "caller": "B"},
                                {"do": "settle", "ms": 40}, {"do": "snapshot"}]
             elif it["do"] == "fault":
                 e = it["env"]
@@ -336,7 +337,7 @@ class Builder:
         return s
 
 
-def recipe_double_claim(sid, prefix="c"):
+def recipe_double_claim(sid, prefix="c", then_destroy=False):
     """Schedule of TLC's counterexample for Code_ClaimNotAtomic (three calls in flight, which LifecycleGen does not
     produce): e2 and e3 are parked after their own Cleanup, e1 is destroyed with keep_tasks, e2 claims e1's task and
     is parked before it locks it, e3 claims it too; both lock it."""
@@ -364,6 +365,10 @@ def recipe_double_claim(sid, prefix="c"):
              {"do": "release", "point": reg}, {"do": "settle", "ms": 150}, {"do": "release", "point": lock},
              {"do": "await", "caller": "A", "timeout_ms": 20000}, {"do": "await", "caller": "B", "timeout_ms": 20000},
              {"do": "settle", "ms": 60}, {"do": "snapshot"}]
+    if then_destroy:
+        # e2's failure tail could not release the task e3 took over: e2 is still listed, and a destroy cannot be honoured
+        steps += [{"do": "destroy", "env": "e2", "force": True, "timeout_ms": 12000}, {"do": "settle", "ms": 60}, {"do": "snapshot"},
+                  {"do": "destroy", "env": "e3", "force": True, "timeout_ms": 12000}, {"do": "settle", "ms": 60}, {"do": "snapshot"}]
     mk = lambda b: {"basic": b, "hooks": [], "pend": False, "dets": [], "script": "ok"}
     hist = [{"do": "recipe", "name": "reuse-double-claim"}]
     return {"id": sid, "family": "recipe:Code_ClaimNotAtomic", "agents": cs.DEFAULT_AGENTS, "files": files,
@@ -565,7 +570,7 @@ def cause_of(inv, s, detail, facts):
     envs = m.get("envs", {})
     hist = s.get("hist", [])
     tf = facts.get("tasks", {})
-    if inv in ("PostOwned", "PostOwnedApi", "PostKilled", "PostOrphan"):
+    if inv in ("PostOwned", "PostOwnedApi", "PostKilled", "PostOrphan", "OwnerListed"):
         e, ts = detail_tasks(detail)
         hooks = envs.get(e, {}).get("hooks", [])
         maxw = max([HOOKDEF[h][2] for h in hooks], default=0)
@@ -573,7 +578,7 @@ def cause_of(inv, s, detail, facts):
         for t in ts:
             f = tf.get(t, {})
             r = f.get("role", "?")
-            if inv in ("PostOwned", "PostOwnedApi"):
+            if inv in ("PostOwned", "PostOwnedApi", "OwnerListed"):
                 if r in HOOKDEF and HOOKDEF[r][0] == "task" and not f.get("triggered"):
                     causes.add("hook-inactive")
                 elif r in HOOKDEF and HOOKDEF[r][0] == "task" and HOOKDEF[r][2] < maxw:
@@ -585,6 +590,10 @@ def cause_of(inv, s, detail, facts):
             else:
                 causes.add("never-in-roster" if not f.get("rostered") else ("selected-inactive" if f.get("inactive") else "other"))
         return "+".join(sorted(causes)) or "other"
+    if inv == "PostListed":
+        # the failure tail of create ignores the error of its forced teardown: the environment stays listed when a release
+        # was refused, which takes a task that another environment took over (double claim under task reuse)
+        return "double-claim" if any(f.get("claims", 0) >= 2 for f in tf.values()) else "other"
     if inv == "Returns":
         call, e = (list(detail) + ["", ""])[:2] if isinstance(detail, (list, tuple)) else ("", "")
         if m.get("kill") == "silent":
